@@ -129,8 +129,10 @@ def r1_attributes(text, m, ed):
             raise RsxError(f"R1: unknown attribute #[{compact}]")
 
 
-def r2_apit(text, m, ed, fns):
-    """impl Trait in argument position -> named generic parameter."""
+def r2_apit(text, m, ed, fns, dyn_too=False):
+    """impl Trait in argument position -> named generic parameter.
+    R21 (dyn_too): `&dyn Trait` in argument position -> `&G` with `G: Trait` as well (static instead of dynamic
+    dispatch: the function is then verified for EVERY implementor against the trait's contract)."""
     toks = tokenize(text)
     for f in fns:
         # tokens of the parameter list
@@ -139,7 +141,7 @@ def r2_apit(text, m, ed, fns):
         k = 0
         while k < len(ptoks):
             t = ptoks[k]
-            if t.kind == "id" and t.text == "impl":
+            if t.kind == "id" and (t.text == "impl" or (dyn_too and t.text == "dyn")):
                 # bound extends to ',' / ')' / '>' at relative depth 0
                 d, a, q = 0, 0, k + 1
                 while q < len(ptoks):
@@ -163,7 +165,7 @@ def r2_apit(text, m, ed, fns):
                 bound = text[ptoks[k + 1].s:ptoks[q - 1].e]
                 gname = f"G{len(new_generics)}_"
                 new_generics.append(f"{gname}: {bound}")
-                ed.add(t.s, ptoks[q - 1].e, gname, "R2")
+                ed.add(t.s, ptoks[q - 1].e, gname, "R2" if t.text == "impl" else "R21")
                 k = q
                 continue
             k += 1
